@@ -201,4 +201,61 @@ def sigma_draw(prog: Program) -> RuleResult:
     res.ok(f"{TIKZ}:non-geometric-switches", f"{len(skipped)} orientation switches hold text styles or nested conditions and are not compared: {[s.split(':')[1] for s in skipped]}", nontrivial=False)
     return res
 
-RULES = {"SIGMA-INVARIANCE": sigma_invariance, "SIGMA-CLOSURE": sigma_closure, "SIGMA-DRAW": sigma_draw}
+
+def finite_arith(prog: Program) -> RuleResult:
+    from ..flow import guards
+
+    res = RuleResult(
+        "FINITE-ARITH",
+        "every coordinate of a layout is built from the measured node sizes and the drawing parameters with "
+        "+, -, *, division by a non-zero constant, and max/min over non-empty collections only: no division by a "
+        "variable, no inf / nan / math function, no max()/min() of an iterable that can be empty (each is guarded by "
+        "the truth of the collection it iterates or has a default) - so finite positive sizes give finite "
+        "coordinates and the layout cannot fail on an empty species",
+    )
+    n = 0
+    for modname in (LAYOUT, GEOM):
+        mod = prog.module(modname)
+        for qual, fn in prog.defs(modname).items():
+            if not isinstance(fn, FuncNode):
+                continue
+            if "." in qual and modname == LAYOUT:
+                continue
+            bad = []
+            for node in walk_no_nested(fn):
+                if isinstance(node, ast.BinOp) and isinstance(node.op, (ast.Div, ast.FloorDiv, ast.Mod)):
+                    r = node.right
+                    if not (isinstance(r, ast.Constant) and isinstance(r.value, (int, float)) and r.value != 0):
+                        bad.append((node, f"`{short(node, 60)}` divides by `{short(r)}`, which is not a non-zero constant"))
+                if isinstance(node, ast.BinOp) and isinstance(node.op, ast.Pow):
+                    bad.append((node, f"`{short(node, 60)}` uses a power"))
+                if isinstance(node, ast.Name) and node.id in ("inf", "nan"):
+                    bad.append((node, f"`{node.id}` enters a coordinate computation"))
+                if isinstance(node, ast.Call) and (dotted(node.func) or "").startswith("math."):
+                    bad.append((node, f"`{short(node, 60)}` is outside the polynomial / max / min fragment"))
+                if isinstance(node, ast.Call) and dotted(node.func) == "float" and node.args and isinstance(node.args[0], ast.Constant) and str(node.args[0].value).lower() in ("inf", "-inf", "nan"):
+                    bad.append((node, f"`{short(node)}` enters a coordinate computation"))
+                if isinstance(node, ast.Call) and dotted(node.func) in ("max", "min") and len(node.args) == 1 and not any(k.arg == "default" for k in node.keywords):
+                    arg = node.args[0]
+                    if isinstance(arg, (ast.GeneratorExp, ast.ListComp, ast.SetComp)):
+                        it = arg.generators[0].iter
+                        base = it
+                        while isinstance(base, ast.Call) and isinstance(base.func, ast.Attribute) and base.func.attr in ("values", "keys", "items"):
+                            base = base.func.value
+                        key = ast.dump(base)
+                        guarded = any(pol and ast.dump(g) == key for g, pol in guards(fn, node))
+                        if not guarded:
+                            bad.append((node, f"`{short(node, 70)}` takes the {dotted(node.func)} of `{short(it, 40)}`, which may be empty here (no `default=`, no enclosing `if {short(base, 30)}:`)"))
+            n += 1
+            construct = f"{modname}:{qual}/finite"
+            if bad:
+                for node, why in bad:
+                    res.fail(construct, why, mod, node)
+            else:
+                res.ok(construct, "polynomial / max / min of sizes and parameters", nontrivial=_mentions_geometry(fn))
+    if n < 20:
+        raise AnalysisError(f"FINITE-ARITH: only {n} functions inspected")
+    return res
+
+
+RULES = {"FINITE-ARITH": finite_arith, "SIGMA-INVARIANCE": sigma_invariance, "SIGMA-CLOSURE": sigma_closure, "SIGMA-DRAW": sigma_draw}
